@@ -695,31 +695,36 @@ class Watcher(object):
     def send_signal_process(self, process, signum, recursive=False):
         """Send the signum signal to the process
 
-        The signal is sent to the process itself then to all the children
+        The signal is sent to all the children then to the process itself
         """
-        children = None
         try:
             # getting the process children
             children = process.children(recursive=recursive)
+        except NoSuchProcess:
+            # already dead !
+            return
 
+        # the children first, deepest first: once a process has died from the
+        # signal its children are re-parented and cannot be reached through
+        # it any more
+        for child_pid in reversed(children):
+            try:
+                process.send_signal_child(child_pid, signum,
+                                          recursive=recursive)
+                self.notify_event("kill", {"process_pid": child_pid,
+                                  "time": time.time()})
+            except NoSuchProcess:
+                # already dead !
+                pass
+
+        try:
             # sending the signal to the process itself
             self.send_signal(process.pid, signum)
             self.notify_event("kill", {"process_pid": process.pid,
                                        "time": time.time()})
         except NoSuchProcess:
             # already dead !
-            if children is None:
-                return
-
-        # now sending the same signal to all the children
-        for child_pid in children:
-            try:
-                process.send_signal_child(child_pid, signum)
-                self.notify_event("kill", {"process_pid": child_pid,
-                                  "time": time.time()})
-            except NoSuchProcess:
-                # already dead !
-                pass
+            pass
 
     @gen.coroutine
     @util.debuglog
